@@ -8,3 +8,7 @@ import TbbVerif.Proofs.C15.JoinQ
 import TbbVerif.Proofs.C15.JoinR
 import TbbVerif.Proofs.C15.JoinK
 import TbbVerif.Proofs.C15.Misc
+import TbbVerif.Proofs.C15.Batch
+import TbbVerif.Proofs.C15.BatchNodes
+import TbbVerif.Proofs.C15.Seq64
+import TbbVerif.Proofs.C15.Join
